@@ -18,18 +18,18 @@ def _h(path):
     return hashlib.sha256(open(path, "rb").read()).hexdigest()[:16]
 
 
-def run(seed, n):
+def run(seed, n, flags=""):
     hbin = vlib.build_harness()
     build_driver()
-    key = "%s-%s-%d-%d" % (_h(hbin), _h(DRIVER), seed, n)
+    key = "%s-%s-%d-%d%s" % (_h(hbin), _h(DRIVER), seed, n, flags.replace(" ", ""))
     cache = os.path.join(vlib.WORK, "satrun-%s.json" % key)
     if os.path.exists(cache):
         return json.load(open(cache))
-    cmd = "%s sat %d %d 2>/dev/null | %s" % (hbin, seed, n, DRIVER)
+    cmd = "set -o pipefail; %s sat %d %d 2>/dev/null | %s %s" % (hbin, seed, n, DRIVER, flags)
     p = vlib.sh(cmd, timeout=3000)
     if p.returncode != 0:
         raise RuntimeError("sat run failed: " + p.stderr[-2000:])
-    res = {"bad": {"C01": [], "C02": []}, "diff": [], "panic": [], "summary": {}, "hist": {}}
+    res = {"bad": {"C01": [], "C02": [], "C03": [], "C17": []}, "diff": [], "panic": [], "summary": {}, "hist": {}}
     for line in p.stdout.splitlines():
         if line.startswith("BAD "):
             pid = line.split()[1]
@@ -43,7 +43,7 @@ def run(seed, n):
         elif line.startswith("HIST "):
             _, k, v = line.split()
             res["hist"][k] = int(v)
-    if not res["summary"]:
+    if not res["summary"] or "ENDSAT" not in p.stdout:
         raise RuntimeError("driver produced no summary: " + p.stdout[-2000:] + p.stderr[-2000:])
     for k in ("bad", "diff", "panic"):
         pass
